@@ -128,6 +128,13 @@ def shut(index, rep):
     rets = [r for r in g.body if isinstance(r, ast.Return)]
     got = [inl.src(e) for e in rets[0].value.elts] if len(rets) == 1 and isinstance(rets[0].value, ast.Tuple) else []
     want = [f"self.get_biofuel_usage({cp}['DELAY']['BIOFUEL_SHUTOFF_MONTHS'])", f"self.get_feed_usage({cp}['DELAY']['FEED_SHUTOFF_MONTHS'])"]
+    if got != want and got == [w.replace("['DELAY']", "") for w in want]:
+        # the routine is handed the DELAY sub-table itself: then every caller must hand exactly that over
+        from .core import bind_args as _bad
+        sites_ = [c for rel_ in index.py_files("src") for c in ast.walk(index.module(rel_)) if isinstance(c, ast.Call)
+                  and isinstance(c.func, ast.Attribute) and c.func.attr == "get_biofuels_and_feed_from_delayed_shutoff"]
+        if sites_ and all(norm_src(_bad(c, g).get(cp) or ast.Constant(value=None)).endswith("['DELAY']") for c in sites_):
+            got = want
     rep.check(got == want, rule, "durations:from-configured-delays", "the schedules are not built from DELAY[BIOFUEL|FEED_SHUTOFF_MONTHS] respectively",
               loc=loc(FAB, g), detail=str(got))
     rep.check(len(got) == 2 and got[0].startswith("self.get_biofuel_usage(") and got[1].startswith("self.get_feed_usage("), rule, "returns:(biofuels, feed)",
@@ -141,84 +148,108 @@ def shut(index, rep):
 def wire(index, rep, flow):
     rule = "C03.WIRE"
     ras = index.func(RUN, "ScenarioRunner.run_and_analyze_scenario")
-    want = {"assert_feed_used_below_feed_demand": "src:get_feed_usage", "assert_biofuels_used_below_biofuels_demand": "src:get_biofuel_usage"}
-    seen = {}
-    inl_ras = Inliner(ras)
-    for c in walk_no_nested(ras):
-        if isinstance(c, ast.Call) and isinstance(c.func, ast.Attribute) and c.func.attr in want:
-            rnd = [k.value.value for k in c.keywords if k.arg == "round" and isinstance(k.value, ast.Constant)]
-            rnd = rnd[0] if rnd else None
-            org = flow.origin(ras, c.args[0], before=c.lineno)
-            res = inl_ras.at(c).src(c.args[1]) if len(c.args) > 1 else "?"   # the definition reaching this call
-            seen.setdefault(c.func.attr, {})[rnd] = (org, res, c)
-            rep.check(org == {want[c.func.attr]}, rule, f"{c.func.attr}[round {rnd}]:demand-provenance",
-                      f"the demand passed to the validator originates from {sorted(org)}, expected {want[c.func.attr]} "
-                      "(feed and biofuel demand crossed somewhere along the tuple hand-offs)", loc=loc(RUN, c))
-            rep.check(res.startswith(f"self.run_round_{rnd}("), rule, f"{c.func.attr}[round {rnd}]:results-of-that-round",
-                      f"round {rnd} is validated on {res[:60]}", loc=loc(RUN, c))
-    for name in want:
-        rounds = set(seen.get(name, {}))
-        rep.check(rounds == {1, 2, 3}, rule, f"{name}:every-round", f"use is validated against demand only in rounds {sorted(map(str, rounds))}",
-                  loc=loc(RUN, ras))
-        if 3 in seen.get(name, {}):
-            c = seen[name][3][2]
-            st = c
-            while not isinstance(getattr(st, "_parent", None), ast.FunctionDef):
-                st = st._parent
-            rep.check(st in ras.body, rule, f"{name}[round 3]:unconditional", "the final round's check is conditional", loc=loc(RUN, c))
-    # placement: round-k check follows the call that produced round k's results
-    def line_of(text):
-        ls = [s.lineno for s in walk_no_nested(ras) if isinstance(s, ast.Assign) and text in norm_src(s.value)]
-        return min(ls) if ls else None
+    # the validators are found by what they do: a Validator routine called with a `round` here, holding (helpers read through) an assertion
+    #     all(-1e-6 < (DEMAND - Validator.sum_<feed|biofuel>_sources(RESULTS) in monthly units x (1 - epsilon)).kcals)
+    # on two of its parameters - one routine per use, or one routine checking both
+    KIND = {"sum_feed_sources": ("feed", "src:get_feed_usage"), "sum_biofuel_sources": ("biofuel", "src:get_biofuel_usage")}
+    from .core import bind_args as _baw
+    vmethods = index.methods(VAL, "Validator")
 
-    for name in want:
-        for rnd, producer in ((1, "self.run_round_1("), (2, "self.run_round_2("), (3, "self.run_round_3(")):
-            if rnd in seen.get(name, {}):
-                c = seen[name][rnd][2]
-                pl = line_of(producer)
-                rep.check(pl is not None and pl < c.lineno, rule, f"{name}[round {rnd}]:after-the-round",
-                          "the validator is called before the round it validates", loc=loc(RUN, c))
-    # the validators raise and compare the right way round
-    for name, summer, attrs in (("assert_feed_used_below_feed_demand", "sum_feed_sources",
-                                 ["cell_sugar_feed", "scp_feed", "seaweed_feed", "outdoor_crops_feed", "stored_food_feed"]),
-                                ("assert_biofuels_used_below_biofuels_demand", "sum_biofuel_sources",
-                                 ["cell_sugar_biofuels", "scp_biofuels", "seaweed_biofuels", "outdoor_crops_biofuels", "stored_food_biofuels"])):
-        fn0 = index.func(VAL, "Validator." + name)
-        fn = index.flat_func(VAL, "Validator." + name, keep=("sum_feed_sources", "sum_biofuel_sources"))   # a shared checking helper is read through
-        demand = fn0.args.args[0].arg
-        res = fn0.args.args[1].arg
+    def validator_checks(name):
+        fn0 = vmethods[name]
+        fn = index.flat_func(VAL, "Validator." + name, keep=tuple(KIND))
+        params = [a.arg for a in fn0.args.args]
         eps_default = None
-        names = [a.arg for a in fn0.args.args]
-        if "epsilon" in names:
-            dflt = fn0.args.defaults[names.index("epsilon") - (len(names) - len(fn0.args.defaults))]
-            eps_default = dflt.value if isinstance(dflt, ast.Constant) else None
+        if "epsilon" in params and fn0.args.defaults:
+            i_ = params.index("epsilon") - (len(params) - len(fn0.args.defaults))
+            if i_ >= 0 and isinstance(fn0.args.defaults[i_], ast.Constant):
+                eps_default = fn0.args.defaults[i_].value
         inl_v = Inliner(fn)
-        asserts = [a for a in walk_no_nested(fn) if isinstance(a, ast.Assert)]
-        want_total = f"Validator.{summer}({res})"
-        want_red = (f"{want_total}.in_units_bil_kcals_thou_tons_thou_tons_per_month()*(1-epsilon)",
-                    f"(1-epsilon)*{want_total}.in_units_bil_kcals_thou_tons_thou_tons_per_month()")
-        ok = len(asserts) == 1
-        if ok:
-            # all(-1e-06 < (demand - reduced use).kcals)   (comparisons are read in canonical orientation, see canon.py)
-            t = asserts[0].test
+        out = []
+        for a_ in [x for x in walk_no_nested(fn) if isinstance(x, ast.Assert)]:
+            t = a_.test
             inner = None
             if isinstance(t, ast.Call) and dotted(t.func) == "np.all" and len(t.args) == 1:
                 inner = t.args[0]
             elif isinstance(t, ast.Call) and isinstance(t.func, ast.Attribute) and t.func.attr == "all" and not t.args:
                 inner = t.func.value
-            ok = False
-            if isinstance(inner, ast.Compare) and len(inner.ops) == 1 and isinstance(inner.ops[0], (ast.Lt, ast.LtE)):
-                try:
-                    bound = float(ast.literal_eval(inner.left))
-                except Exception:
-                    bound = None
-                e_ = inl_v.at(asserts[0]).expr(inner.comparators[0])
-                okd = isinstance(e_, ast.Attribute) and e_.attr == "kcals" and isinstance(e_.value, ast.BinOp) and isinstance(e_.value.op, ast.Sub) \
-                    and norm_src(e_.value.left) == demand and norm_src(e_.value.right).replace(" ", "") in want_red
-                ok = bound is not None and -1e-6 <= bound <= 0 and okd
-        rep.check(ok and eps_default is not None and eps_default <= 1e-4, rule, f"{name}:raises-on-excess",
-                  "the validator no longer asserts  demand - used x (1 - eps) > -1e-6  (eps <= 1e-4) on the round's total use: an excess would "
-                  "pass silently", loc=loc(VAL, fn))
+            if not (isinstance(inner, ast.Compare) and len(inner.ops) == 1 and isinstance(inner.ops[0], (ast.Lt, ast.LtE))):
+                continue
+            try:
+                bound = float(ast.literal_eval(inner.left))
+            except Exception:
+                continue
+            e_ = inl_v.at(a_).expr(inner.comparators[0])
+            if not (isinstance(e_, ast.Attribute) and e_.attr == "kcals" and isinstance(e_.value, ast.BinOp) and isinstance(e_.value.op, ast.Sub)):
+                continue
+            demand = norm_src(e_.value.left)
+            used = norm_src(e_.value.right).replace(" ", "")
+            for summer, (kind, src_) in KIND.items():
+                for res in params:
+                    tot = f"Validator.{summer}({res})"
+                    if used in (f"{tot}.in_units_bil_kcals_thou_tons_thou_tons_per_month()*(1-epsilon)",
+                                f"(1-epsilon)*{tot}.in_units_bil_kcals_thou_tons_thou_tons_per_month()") and demand in params:
+                        out.append(dict(kind=kind, src=src_, demand=demand, results=res, ok=-1e-6 <= bound <= 0 and eps_default is not None
+                                        and eps_default <= 1e-4, fn=fn0))
+        return out
+
+    seen = {}
+    inl_ras = Inliner(ras)
+    called = {}
+    for c in walk_no_nested(ras):
+        if isinstance(c, ast.Call) and isinstance(c.func, ast.Attribute) and dotted(c.func.value) == "Validator" and c.func.attr in vmethods \
+                and any(k.arg == "round" for k in c.keywords):
+            called.setdefault(c.func.attr, []).append(c)
+    checks_of = {n_: validator_checks(n_) for n_ in called}
+    for name, calls in called.items():
+        for c in calls:
+            rnd = [k.value.value for k in c.keywords if k.arg == "round" and isinstance(k.value, ast.Constant)]
+            rnd = rnd[0] if rnd else None
+            bound_ = _baw(c, vmethods[name], method=False)
+            for chk in checks_of[name]:
+                kind = chk["kind"]
+                tag = f"{kind}-use below {kind} demand"
+                d_e, r_e = bound_.get(chk["demand"]), bound_.get(chk["results"])
+                org = flow.origin(ras, d_e, before=c.lineno) if d_e is not None else {"?"}
+                res = inl_ras.at(c).src(r_e) if r_e is not None else "?"   # the definition reaching this call
+                seen.setdefault(kind, {})[rnd] = (org, res, c)
+                rep.check(org == {chk["src"]}, rule, f"{tag}[round {rnd}]:demand-provenance",
+                          f"the demand passed to the validator originates from {sorted(org)}, expected {chk['src']} "
+                          "(feed and biofuel demand crossed somewhere along the tuple hand-offs)", loc=loc(RUN, c))
+                rep.check(res.startswith(f"self.run_round_{rnd}("), rule, f"{tag}[round {rnd}]:results-of-that-round",
+                          f"round {rnd} is validated on {res[:60]}", loc=loc(RUN, c))
+    for kind in ("feed", "biofuel"):
+        tag = f"{kind}-use below {kind} demand"
+        rounds = set(seen.get(kind, {}))
+        rep.check(rounds == {1, 2, 3}, rule, f"{tag}:every-round", f"use is validated against demand only in rounds {sorted(map(str, rounds))}",
+                  loc=loc(RUN, ras))
+        if 3 in seen.get(kind, {}):
+            c = seen[kind][3][2]
+            st = c
+            while not isinstance(getattr(st, "_parent", None), ast.FunctionDef):
+                st = st._parent
+            rep.check(st in ras.body, rule, f"{tag}[round 3]:unconditional", "the final round's check is conditional", loc=loc(RUN, c))
+    # placement: round-k check follows the call that produced round k's results
+    def line_of(text):
+        ls = [s.lineno for s in walk_no_nested(ras) if isinstance(s, ast.Assign) and text in norm_src(s.value)]
+        return min(ls) if ls else None
+
+    for kind in ("feed", "biofuel"):
+        tag = f"{kind}-use below {kind} demand"
+        for rnd, producer in ((1, "self.run_round_1("), (2, "self.run_round_2("), (3, "self.run_round_3(")):
+            if rnd in seen.get(kind, {}):
+                c = seen[kind][rnd][2]
+                pl = line_of(producer)
+                rep.check(pl is not None and pl < c.lineno, rule, f"{tag}[round {rnd}]:after-the-round",
+                          "the validator is called before the round it validates", loc=loc(RUN, c))
+    # the validators raise and compare the right way round
+    for kind, summer, attrs in (("feed", "sum_feed_sources", ["cell_sugar_feed", "scp_feed", "seaweed_feed", "outdoor_crops_feed", "stored_food_feed"]),
+                                ("biofuel", "sum_biofuel_sources",
+                                 ["cell_sugar_biofuels", "scp_biofuels", "seaweed_biofuels", "outdoor_crops_biofuels", "stored_food_biofuels"])):
+        chks = [ch for n_ in checks_of for ch in checks_of[n_] if ch["kind"] == kind]
+        rep.check(bool(chks) and all(ch["ok"] for ch in chks), rule, f"{kind}-use below {kind} demand:raises-on-excess",
+                  "no validator called per round asserts  demand - used x (1 - eps) > -1e-6  (eps <= 1e-4) on the round's total use: an excess would "
+                  "pass silently", loc=loc(VAL, chks[0]["fn"]) if chks else VAL)
         sf = index.func(VAL, "Validator." + summer)
         lists = [[str_const(e) for e in n.elts] for n in ast.walk(sf) if isinstance(n, ast.List) and n.elts and all(str_const(e) for e in n.elts)]
         rep.check(sorted(attrs) in [sorted(l) for l in lists], rule, f"{summer}:five-sources",
@@ -328,13 +359,27 @@ def pin(index, rep, flow):
         [_rp(ro, ["consts_for_optimizer", "time_consts", "optimization_type", "min_human_food_consumption"])[3]]
     ok = fc2 is not None
     if ok:
-        got3 = _abn(fc2[1], of, ["consts_for_optimizer", "time_consts", "min_human_food_consumption"])
+        ofp = [a.arg for a in of.args.args][1:]
+        from .core import bind_args as _ba3
+        b3 = _ba3(fc2[1], of)
+        # the hand-off goes to the parameter that takes it; the two constant tables either go along (and then are run_optimizer's own) or the
+        # routine no longer takes them (it uses the ones the Optimizer was constructed with - checked next)
+        hand_p = "min_human_food_consumption" if "min_human_food_consumption" in ofp else (ofp[2] if len(ofp) == 3 else (ofp[0] if len(ofp) == 1 else None))
+        ok = hand_p is not None and hand_p in b3 and fc2[2].src(b3[hand_p]) == RH
+        for nm_, want_ in (("consts_for_optimizer", RC), ("time_consts", RT)):
+            if nm_ in ofp:
+                ok = ok and nm_ in b3 and fc2[2].src(b3[nm_]) == want_
+            elif len(ofp) == 3 and hand_p != "min_human_food_consumption":
+                i_ = 0 if nm_ == "consts_for_optimizer" else 1
+                ok = ok and ofp[i_] in b3 and fc2[2].src(b3[ofp[i_]]) == want_
         ctor_e = fc2[2].expr(fc2[1].func.value)
         got2 = _abn(ctor_e, oi, ["consts_for_optimizer", "time_consts"]) if isinstance(ctor_e, ast.Call) and dotted(ctor_e.func) == "Optimizer" else [None, None]
-        ok = None not in got3 and None not in got2 and [fc2[2].src(a) for a in got3] == [RC, RT, RH] and [norm_src(a) for a in got2] == [RC, RT]
+        ok = ok and None not in got2 and [norm_src(a) for a in got2] == [RC, RT]
     rep.check(ok, rule, "run_optimizer:passes-hand-off", "run_optimizer does not pass the hand-off to optimize_feed_to_animals", loc=loc(RUN, ro))
     st = [s for s in of.body if isinstance(s, ast.Assign) and norm_src(s.targets[0]) == "self.time_consts['min_human_food_consumption']"]
-    rep.check(len(st) == 1 and norm_src(st[0].value) == _rp(of, ["consts_for_optimizer", "time_consts", "min_human_food_consumption"])[2], rule, "optimizer:stores-hand-off",
+    ofp_ = [a.arg for a in of.args.args][1:]
+    hand_name = "min_human_food_consumption" if "min_human_food_consumption" in ofp_ else (ofp_[2] if len(ofp_) == 3 else (ofp_[0] if len(ofp_) == 1 else "?"))
+    rep.check(len(st) == 1 and norm_src(st[0].value) == hand_name, rule, "optimizer:stores-hand-off",
               "optimize_feed_to_animals does not store its hand-off argument where the pins read it", loc=loc(OPT, of))
     # the hand-off was computed from round 1's interpreted results
     c2r = index.func(PARAMS, "Parameters.compute_parameters_second_round")
@@ -445,7 +490,9 @@ def bump_slots(index):
     from .rat import Rat
     bump_fn = index.func(PARAMS, "Parameters.increase_biofuels_then_feed")
     cls = index.cls(PARAMS, "Parameters")
-    bparams = [a.arg for a in bump_fn.args.args][1:]
+    from .core import own_params
+    bparams = own_params(bump_fn)
+    bump_is_method = len(bparams) < len(bump_fn.args.args)
     inc_p = [p_ for p_ in bparams if "increase" in p_]
     slots = []
     if len(inc_p) == 1:
@@ -468,7 +515,7 @@ def bump_slots(index):
                 return NotImplemented
 
             it.call_hook = hk
-            return it.call_function(bump_fn, [A[p_] for p_ in bparams], {}, Obj(cls, {}, "self"))
+            return it.call_function(bump_fn, [A[p_] for p_ in bparams], {}, Obj(cls, {}, "self") if bump_is_method else None)
 
         try:
             leaves = [x for x in explore(run_el, month_classes=False) if not isinstance(x[2], Abort)]
@@ -643,15 +690,36 @@ def skip(index, rep):
     """when round 2 is not run or is abandoned, the stand-in for its results that round 3 starts from carries zero feed and zero
     biofuel: nothing but what a solved round found may be charged against human-edible food"""
     rule = "C03.SKIP"
-    fn = index.func(RUN, "ScenarioRunner.get_interpreted_results_for_round3_if_zero_feed")
     ras = index.func(RUN, "ScenarioRunner.run_and_analyze_scenario")
     cls = index.cls(RUN, "ScenarioRunner")
-    sites = [c for c in walk_no_nested(ras) if isinstance(c, ast.Call) and isinstance(c.func, ast.Attribute)
-             and c.func.attr == "get_interpreted_results_for_round3_if_zero_feed"]
-    if len(sites) < 2:
-        raise AnalysisError("run_and_analyze_scenario: the two skip paths (zero feed requested / round 2 abandoned) were not found")
-    params = [a.arg for a in fn.args.args][1:]
-    for k, site in enumerate(sorted(sites, key=lambda c: c.lineno)):
+    # the stand-in is found by its role: what run_round_3 is handed as round 2's results is, on every path, either what run_round_2 returned
+    # or what a stand-in builder (a method of the runner or a module-level function of the file) returned; each builder call is evaluated
+    from .core import pos_of as _pos_s
+    rr3 = index.func(RUN, "ScenarioRunner.run_round_3")
+    rr3_calls = [c for c in walk_no_nested(ras) if isinstance(c, ast.Call) and dotted(c.func) == "self.run_round_3"]
+    if len(rr3_calls) != 1:
+        raise AnalysisError("run_and_analyze_scenario: expected one call of run_round_3")
+    i_r2 = _pos_s(rr3, "interpreted_results_round2", 6, 15)
+    from .core import bind_args as _bas
+    b_ = _bas(rr3_calls[0], rr3)
+    p_r2 = [a.arg for a in rr3.args.args][1:][i_r2] if i_r2 is not None and i_r2 < len(rr3.args.args) - 1 else None
+    handed = b_.get(p_r2)
+    if not isinstance(handed, ast.Name):
+        raise AnalysisError("run_round_3: the argument standing for round 2's results is not a local of run_and_analyze_scenario")
+    methods_ = index.methods(RUN, "ScenarioRunner")
+    modfuncs_ = {f_.name: f_ for f_ in index.module(RUN).body if isinstance(f_, ast.FunctionDef)}
+    sites = []
+    for st_ in walk_no_nested(ras):
+        if isinstance(st_, ast.Assign) and any(isinstance(t_, ast.Name) and t_.id == handed.id for t_ in st_.targets) and isinstance(st_.value, ast.Call):
+            d_ = dotted(st_.value.func) or ""
+            if d_.startswith("self.") and d_[5:] in methods_ and not d_[5:].startswith("run_round"):
+                sites.append((st_.value, methods_[d_[5:]], True))
+            elif d_ in modfuncs_:
+                sites.append((st_.value, modfuncs_[d_], False))
+    if not sites:
+        raise AnalysisError("run_and_analyze_scenario: no stand-in for round 2's results (zero feed requested / round 2 abandoned) was found")
+    sites.sort(key=lambda t_: t_[0].lineno)
+    for k, (site, fn, as_method) in enumerate(sites):
         def runit(it, site=site):
             it.classes = {"ScenarioRunner": cls}
 
@@ -671,13 +739,13 @@ def skip(index, rep):
                 return NotImplemented
 
             it.call_hook = hook
-            args = [Obj(None, {}, f"arg{j}") if j == 0 else Rat.atom(NSYM) for j, _ in enumerate(site.args)]
-            for j in range(2, len(site.args)):
-                args[j] = Obj(None, {}, "caller:" + norm_src(site.args[j])[:30])
-            kwargs = {kw.arg: Obj(None, {}, "caller:" + norm_src(kw.value)[:30]) for kw in site.keywords if kw.arg}
-            return it.call_function(fn, args, kwargs, Obj(cls, {}, "self"))
+            # each parameter stands for what the call hands over: the number of months (the horizon), or an opaque object of the caller
+            kwargs = {}
+            for p_, e_ in _bas(site, fn, method=as_method).items():
+                kwargs[p_] = Rat.atom(NSYM) if "NMONTHS" in norm_src(e_) else Obj(None, {}, "caller:" + norm_src(e_)[:30])
+            return it.call_function(fn, [], kwargs, Obj(cls, {}, "self") if as_method else None)
 
-        label = "zero feed requested" if k == len(sites) - 1 else "round 2 abandoned"
+        label = ("zero feed requested" if k == len(sites) - 1 else "round 2 abandoned") if len(sites) > 1 else "round 2 not run or abandoned"
         try:
             leaves = explore(runit, month_classes=False)
         except Unsupported as e:
@@ -698,7 +766,7 @@ def skip(index, rep):
                 rep.check(zero, rule, f"stand-in[{label}]: {attr} is zero",
                           f"when {label}, round 3 starts from a stand-in whose {attr} is not the zero series: feed/biofuel that no round "
                           "found affordable is charged against human-edible food", loc=loc(RUN, site))
-    rep.require_min(rule, 4)
+    rep.require_min(rule, 2)
 
 
 def toothless(index, rep):
